@@ -17,7 +17,6 @@ package glob
 import (
 	"regexp"
 	"strings"
-	"unicode/utf8"
 )
 
 // Glob is a regular expression for glob-style patterns.
@@ -41,17 +40,16 @@ func regexpFromGlob(pattern string) string {
 	var re2Pattern strings.Builder
 	// (?s) lets '*' and '?' match any character including a newline.
 	re2Pattern.WriteString("(?s)^")
-	for n := 0; n < len(pattern); n++ {
-		switch c := pattern[n]; {
-		case c == '*':
+	for _, r := range pattern {
+		switch r {
+		case '*':
 			re2Pattern.WriteString(".*")
-		case c == '?':
+		case '?':
 			re2Pattern.WriteString(".")
-		case c < utf8.RuneSelf:
-			// Every other character matches only itself.
-			re2Pattern.WriteString(regexp.QuoteMeta(string(rune(c))))
 		default:
-			re2Pattern.WriteByte(c)
+			// Every other character matches only itself. A byte that is not valid UTF-8
+			// arrives here as utf8.RuneError, which is also what the matcher sees for it.
+			re2Pattern.WriteString(regexp.QuoteMeta(string(r)))
 		}
 	}
 	re2Pattern.WriteString("$")
